@@ -38,7 +38,8 @@ Inductive bop :=
 | BCancel (i : nat)
 | BReset (i : nat) (s : Z)
 | BDelay (i : nat) (s : Z)
-| BSnap.                      (* call getDelayedCalls() and record what it returns *)
+| BSnap                       (* call getDelayedCalls() and record what it returns *)
+| BRaise.                     (* (in a call function) raise an exception: the rest of the function is not executed *)
 
 Definition nonneg_bop (b : bop) : Prop :=
   match b with BCallLater d => 0 <= d | BReset _ s => 0 <= s | BDelay _ s => 0 <= s | _ => True end.
@@ -55,10 +56,19 @@ Inductive ev :=
 | ERun (c : call) (now : Z) (others : list call)  (* call c's function starts; clock reads now;
                                                      others = the other pending calls at that moment (ghost) *)
 | EEnd (i : nat)                            (* call #i's function returned *)
+| ERaise (i : nat)                          (* call #i's function raised *)
 | EIter                                     (* Clock.advance / reactor.runUntilCurrent is entered *)
 | EDone (n : Z)                             (* ... returned; the clock reads n *)
 | ETimeout (t : option Z)                   (* reactor.timeout() returned t *)
 | ESnap (p : list (nat * Z)).               (* getDelayedCalls(): (id, getTime) in the order returned *)
+
+(** run a call function (a script) on a state: stops at the first [BRaise]; the bool says whether it raised *)
+Fixpoint run_body {S : Type} (exec : S -> bop -> S) (bs : list bop) (s : S) : S * bool :=
+  match bs with
+  | [] => (s, false)
+  | BRaise :: _ => (s, true)
+  | b :: r => run_body exec r (exec s b)
+  end.
 
 (** ---- lookups by id ---- *)
 Fixpoint find_id (i : nat) (l : list call) : option call :=
